@@ -48,6 +48,8 @@ def obligations(tier):
                      restrict_fp=[("pool_push_wrapper.function_pointer_call.1", ["u_push"]), ("pool_push_many_wrapper.function_pointer_call.1", ["u_push"])] if op == 2 else [],
                      encodes=["pool_pop_wrapper", "pool_pop_wait_wrapper", "pool_pop_many_wrapper", "pool_push_wrapper", "pool_push_many_wrapper", "pool_is_empty_wrapper", "pool_get_size_wrapper"],
                      bounds="user pool of 0..4 units, buffer length 0..4", symbolic="pool size, buffer length, which variant"))
+    o.append(Obl("unitmap_dup_key", "C14/unitdup.c", "bucket with TWO live entries of one key (a unit moving between two user pools that use the same handle value: the new mapping is created before the old one is removed): ABTI_unit_unmap_thread removes exactly one, the unit stays translatable",
+                 unwind=5, cut_loops=SPIN, object_bits=10, backend="cadical", encodes=["ABTI_unit_unmap_thread", "ABTI_unit_get_thread_from_user_defined_unit"], bounds="chain of 3", symbolic="positions of the duplicate entries, third entry live or tombstone"))
     return o
 
 MANIFEST_ENTRY = {
